@@ -33,15 +33,15 @@ func vfOK(step string, err error) {
 }
 
 // vfEnroll runs the library's own honest node-led enrollment end to end (this is the C04 flow).
-func vfEnroll(ctx context.Context, server *vfs.Storage, state *structpb.Struct) *types.NodeCredentials {
+func vfEnroll(ctx context.Context, server *vfs.Storage, state *structpb.Struct, sopts ...nodeenrollment.Option) *types.NodeCredentials {
 	nodeSt := &vfs.Storage{}
 	creds, err := types.NewNodeCredentials(ctx, nodeSt)
 	vfOK("new-node-credentials", err)
 	req, err := creds.CreateFetchNodeCredentialsRequest(ctx)
 	vfOK("create-fetch-request", err)
-	_, err = registration.AuthorizeNode(ctx, server, req, nodeenrollment.WithState(state))
+	_, err = registration.AuthorizeNode(ctx, server, req, append([]nodeenrollment.Option{nodeenrollment.WithState(state)}, sopts...)...)
 	vfOK("authorize", err)
-	resp, err := registration.FetchNodeCredentials(ctx, server, req)
+	resp, err := registration.FetchNodeCredentials(ctx, server, req, sopts...)
 	vfOK("fetch", err)
 	_, err = creds.HandleFetchNodeCredentialsResponse(ctx, nodeSt, resp)
 	vfOK("handle-response", err)
